@@ -30,7 +30,7 @@ from harness.gnpy_util import NONE
 
 BOUNDS = {
     # tier -> list of MC runs (MaxSpans, LossSet, MultiUser, Rich, replay stride for profiles with >1 span)
-    'quick': [dict(max_spans=2, losses='MCLossesQuick', multi=False, rich=True, stride1=5, stride2=24, propagate_every=2)],
+    'quick': [dict(max_spans=2, losses='MCLossesQuick', multi=False, rich=True, stride1=6, stride2=30, propagate_every=2)],
     'thorough': [dict(max_spans=3, losses='MCLossesQuick', multi=False, rich=True, stride1=1, stride2=8, propagate_every=3),
                  dict(max_spans=2, losses='MCLossesFull', multi=False, rich=False, stride1=1, stride2=3, propagate_every=3),
                  dict(max_spans=1, losses='MCLossesFull', multi=True, rich=False, stride1=3, stride2=1, propagate_every=3)],
@@ -64,13 +64,25 @@ FG2 = dict(type_variety='fg_auto2', type_def='fixed_gain', gain_flatmax=40, gain
            out_voa_auto=False, allowed_for_design=True)      # noisier, 0.2 dB more power than fg_auto
 
 
+def via_args_power(oms):
+    """the reference power of the profile reaches the design through designed_network(args_power=...) (the --power
+    option) instead of SI power_dbm: lines that start at a transceiver transmitting -2 dBm, reference power -1 dBm"""
+    return oms['ing'] == 1 and oms['dpref'] != 0 and oms['tx'] != 0
+
+
+DESIGN_BAND_13 = [{'f_min': 193.0e12, 'f_max': 193.5e12, 'spacing': 37.5e9}]     # 13 channels (SI grid: 10)
+
+
 def equipment_for(cfg, oms):
     lib = list(FG)
     if oms['rich'] == 5:
         lib.append(FG2)                   # two models eligible for auto-selection, p_max within 0.3 dB of each other
     if oms['rich'] == 1:
         lib = [dict(m, out_voa_auto=True) for m in lib]
-    si = dict(SI, power_dbm=db(oms['dpref']), tx_power_dbm=db(oms['tx']) if oms['ing'] == 1 else 0)
+    si = dict(SI, power_dbm=0 if via_args_power(oms) else db(oms['dpref']),
+              tx_power_dbm=db(oms['tx']) if oms['ing'] == 1 else 0)
+    if oms['rich'] == 7:
+        si['use_si_channel_count_for_design'] = False          # the channel count is that of the design band's own grid
     return U.synthetic_equipment(lib, span=dict(power_mode=cfg['mode'] == 1,
                                                delta_power_range_db=[db(cfg['lo']), db(cfg['hi']), db(cfg['step'])],
                                                power_slope=cfg['slope'] / 1000, span_loss_ref=db(cfg['ref']),
@@ -98,8 +110,11 @@ def spans_for(oms):
             spans.append([dict(kind='fiber', length_km=km, att_in=att_in, lumped_losses=lumped(km))])
         else:
             tot = (r - 2.0 - att_in - lump) / 0.2
-            spans.append([dict(kind='fiber', length_km=0.4 * tot, att_in=att_in), dict(kind='fused', loss=0.5),
-                          dict(kind='fiber', length_km=0.6 * tot, lumped_losses=lumped(0.6 * tot))])
+            # the 0.5 dB between the two fibres is one Fused element, or two chained ones of 0.25 dB
+            fused = [dict(kind='fused', loss=0.5)] if oms['t0'] == -20000000 else \
+                [dict(kind='fused', loss=0.25), dict(kind='fused', loss=0.25)]
+            spans.append([dict(kind='fiber', length_km=0.4 * tot, att_in=att_in)] + fused +
+                         [dict(kind='fiber', length_km=0.6 * tot, lumped_losses=lumped(0.6 * tot))])
     return spans, att
 
 
@@ -137,12 +152,19 @@ def replay(behaviours, chk, traces, ctxs, dev, propagate):
     auto = oms['rich'] == 1                 # library models with out_voa_auto: the design may add v to gain, dp and voa
     eq = equipment_for(cfg, oms)
     spans, att = spans_for(oms)
-    topo = U.line_topology(spans, roadm_a={'params': {'target_pch_out_db': db(oms['dpref'] + oms['t0'])}},
-                           amps=amps_for(oms), ingress='trx' if oms['ing'] == 1 else 'roadm')
+    ra = {'params': {'target_pch_out_db': db(oms['dpref'] + oms['t0'])}}
+    amps = amps_for(oms)
+    if oms['rich'] == 7:
+        # the operator declares the design band of this degree, on its own 37.5 GHz grid (the degree is named after its
+        # first element, so the booster is an explicit element here)
+        amps.setdefault(0, {})
+        ra['params']['per_degree_design_bands'] = {'amp 0': DESIGN_BAND_13}
+    topo = U.line_topology(spans, roadm_a=ra,
+                           amps=amps, ingress='trx' if oms['ing'] == 1 else 'roadm')
     key = json.dumps([cfg, oms], sort_keys=True)
     name = 'B2#' + format(zlib.crc32(key.encode()), '08x')
     try:
-        net, ref, rec = U.design_json(topo, eq)
+        net, ref, rec = U.design_json(topo, eq, args_power=db(oms['dpref']) if via_args_power(oms) else None)
     except Exception as e:                                               # noqa  an exception on a valid OMS
         return dict(name=name, cfg=cfg, oms=oms, att=att, k=0, fields=[f'EXC-{type(e).__name__}'], exception=str(e))
     tr, cx = U.oms_traces(net, eq, ref, rec, name, cfg['mode'] == 1,
@@ -312,13 +334,24 @@ def run_b3(chk):
     # lines that start at a transceiver, designed for a reference power that differs from the transmit power
     corpus += [(n + '-ref+1dBm-tx0dBm', t, e, x, tier, False, None, {'power_dbm': 1, 'tx_power_dbm': 0})
                for n, t, e, x, tier in U.SHIPPED if n in ('edfa_example', 'td_test_network', 'raman_edfa_example')]
+    # ROADM design bands on their own 37.5 GHz grid while the SI grid is 50 GHz (channel count from the design band)
+    corpus += [(n + '-designband-37.5GHz', t, e, x, tier, 'bands', None, {'use_si_channel_count_for_design': False})
+               for n, t, e, x, tier in U.SHIPPED if n in ('meshV2', 'td_long')]
+    # reference power given through designed_network(args_power) on lines that start at a transceiver
+    corpus += [(n + '-args_power+2dBm', t, e, x, tier, 'args', None, {'tx_power_dbm': -1})
+               for n, t, e, x, tier in U.SHIPPED if n in ('edfa_example', 'td_test_network')]
     for name, topo, eqf, extra, tier, strip, attrs, si in corpus:
         if tier == 'thorough' and chk.tier == 'quick':
             continue
         for mode in (True, False):
             try:
+                bands = None
+                if strip == 'bands':
+                    si0 = U.load_equipment(eqf, extra)['SI']['default']
+                    bands = [{'f_min': si0.f_min, 'f_max': si0.f_max, 'spacing': 37.5e9}]
                 net, eq, ref, rec = U.design(topo, eqf, extra, power_mode=mode, strip=strip is True, lumped=strip == 'lumped',
-                                             edfa_attrs=attrs, si=si)
+                                             edfa_attrs=attrs, si=si, roadm_bands=bands,
+                                             args_power=2.0 if strip == 'args' else None)
             except U.LoadError as e:
                 chk.cov.setdefault('b3_not_loadable', []).append(f'{name}: {str(e)[:80]}')
                 continue
@@ -371,7 +404,8 @@ def run(chk):
     n_cases = n_ok = 0
     exercised = dict(reduced=0, offset_kept=0, gain_kept=0, user_voa=0, padded=0, zero_before_roadm=0, in_voa=0,
                      bound_off_step=0, auto_voa_followed_by_amplifier=0, starts_at_transceiver=0,
-                     tx_power_differs_from_reference=0, two_auto_models_above_both_pmax=0, lumped_loss_in_span=0)
+                     tx_power_differs_from_reference=0, two_auto_models_above_both_pmax=0, lumped_loss_in_span=0,
+                     design_band_on_its_own_grid=0, reference_power_via_args_power=0, two_chained_fused=0)
     for b in BOUNDS[chk.tier]:
         r = tlc.run('MC_DesignPower', cfg_text=mc_cfg(b), timeout=2400, tag='c09-mc')
         chk.add_mc(f'MC_DesignPower MaxSpans={b["max_spans"]} {b["losses"]} MultiUser={b["multi"]} Rich={b["rich"]}', r)
@@ -395,9 +429,12 @@ def run(chk):
             cfg = js['cfg']
             o6 = js['oms']
             exercised['starts_at_transceiver'] += o6['ing'] == 1
+            exercised['design_band_on_its_own_grid'] += o6['rich'] == 7
+            exercised['reference_power_via_args_power'] += via_args_power(o6)
+            exercised['two_chained_fused'] += o6['t0'] != -20000000 and len(o6['amps']) - (0 if o6['ing'] == 1 else 1) >= 2
             exercised['tx_power_differs_from_reference'] += o6['ing'] == 1 and o6['tx'] != o6['dpref']
             exercised['two_auto_models_above_both_pmax'] += o6['rich'] == 5 and any(
-                not a['uVar'] and cfg['prefTot'] + o6['dpref'] + o['dp'] == min(a['pmaxSet']) and
+                not a['uVar'] and cfg['prefTot'] + o6['dpref'] + o6['dload'] + o['dp'] == min(a['pmaxSet']) and
                 any(w['out'][k]['pmax'] != o['pmax'] for w in v)
                 for k, (a, o) in enumerate(zip(o6['amps'], js['out'])))
             exercised['bound_off_step'] += cfg['step'] > 0 and (cfg['lo'] % cfg['step'] != 0 or cfg['hi'] % cfg['step'] != 0)
@@ -406,7 +443,7 @@ def run(chk):
                 exercised['auto_voa_followed_by_amplifier'] += any(e['voa'] > 0 and e['uVoa'] == NONE for e in ev[:-1])
             for a, o in zip(js['oms']['amps'], js['out']):
                 gk = cfg['mode'] == 0 and a['uGain'] != NONE
-                exercised['reduced'] += cfg['prefTot'] + js['oms']['dpref'] + o['dp'] == o['pmax']
+                exercised['reduced'] += cfg['prefTot'] + js['oms']['dpref'] + js['oms']['dload'] + o['dp'] == o['pmax']
                 exercised['offset_kept'] += a['uDp'] != NONE and not gk
                 exercised['gain_kept'] += gk
                 exercised['user_voa'] += a['uVoa'] != NONE
